@@ -21,10 +21,12 @@ pub fn def() -> CheckDef {
                canonical text. Non-trivial: the result is neither empty nor the unit set and the rewrite changed the text; distinct by \
                (network, text, rewritten text).",
         assumptions: &["both texts are evaluated on the same graph object, so BDD equality is set equality"],
-        cases: |t| if t == Tier::Quick { 4000 } else { 300_000 },
+        cases: |t| (if t == Tier::Quick { 4000 } else { 300_000 }) + super::big::count(t),
         needs: |t| {
             let m = if t == Tier::Quick { 1 } else { 40 };
+            let big_min = super::big::count(t) / 2;
             vec![
+                ("big_model_cases_completed", big_min),
                 ("distinct_nontrivial", 500 * m),
                 ("rewrite_renaming", 100 * m),
                 ("rewrite_renaming_permutes_internal_names", 100 * m),
@@ -40,7 +42,12 @@ pub fn def() -> CheckDef {
     }
 }
 
-fn run(rng: &mut Rng, _idx: u64, tier: Tier) -> CaseOut {
+fn run(rng: &mut Rng, idx: u64, tier: Tier) -> CaseOut {
+    let small: u64 = if tier == Tier::Quick { 4000 } else { 300_000 };
+    if idx >= small {
+        // bundled benchmark-size models (child process, see bigrun.rs / big.rs)
+        return super::big::run("C08", idx - small, rng, tier);
+    }
     let mut nopts = NetOpts::default();
     if tier == Tier::Thorough {
         nopts.max_vars = 5;
